@@ -318,16 +318,30 @@ def coverage_stats(ctx, behs):
 def record_and_validate(ctx, exe, known):
     """code -> spec: random programs on the real tracer, validated by SpanIdentityTrace.tla."""
     thorough = ctx.tier == "thorough"
-    n = 1200 if thorough else 150
-    h = hrun.run_harness(exe, ["record", n, ctx.seed, 3, 80], timeout=900)
-    if h.crashed:
-        ctx.violation("real code crashed while running a random program (record mode, seed %d): %s" % (
-            ctx.seed, h.err[-600:]), {"mode": "record", "seed": ctx.seed, "n": n, "stderr": h.err[-3000:],
-                                      "args": ["record", n, ctx.seed, 3, 80]})
-        return
-    if h.rc != 0:
-        raise Broken("c05 record failed rc=%s: %s" % (h.rc, h.err[-2000:]))
-    lines = [ln for ln in h.lines if ln.startswith("{")]
+    n = 600 if thorough else 80
+    lines = []
+    summ = {}
+    # two recorder runs: counting IdGenerator (all samplers), and the real RandomIdGenerator with fork().  In both
+    # the OS thread behind a model thread may FINISH and be replaced (thread-per-operation / sometimes / never),
+    # and ids are ranked over the whole run: the trace spec demands every fresh id to outrank all earlier ones.
+    for args in (["record", n, ctx.seed, 3, 80, "counter"], ["record", n, ctx.seed + 1000, 3, 80, "random", "fork"]):
+        h = hrun.run_harness(exe, args, timeout=900)
+        if h.crashed:
+            ctx.violation("real code crashed while running a random program (record mode %s, seed %d): %s" % (
+                args[5], ctx.seed, h.err[-600:]), {"mode": "record", "seed": ctx.seed, "n": n, "stderr": h.err[-3000:],
+                                                  "args": args})
+            return
+        if h.rc != 0:
+            raise Broken("c05 record failed rc=%s: %s" % (h.rc, h.err[-2000:]))
+        m = re.search(r"record-summary os_threads_created=(\d+) os_threads_finished=(\d+) forks=(\d+) distinct_ids=(\d+)", h.err)
+        if not m:
+            raise Broken("c05 record: no summary line")
+        summ[args[5]] = {"os_threads_created": int(m.group(1)), "os_threads_finished": int(m.group(2)),
+                         "forks": int(m.group(3)), "distinct_ids": int(m.group(4))}
+        if int(m.group(2)) < n or (args[5] == "random" and int(m.group(3)) == 0):
+            raise Broken("vacuity: recorder exercised no finished/re-created OS threads or no fork(): %s" % summ)
+        lines += [ln for ln in h.lines if ln.startswith("{")]
+    ctx.extra["recorder"] = summ
     cfgp = ctx.rundir.file("tv.cfg")
     with open(cfgp, "w") as f:
         f.write("CONSTANTS NThr = 3 MaxEnt = 1000 MaxRemote = 1000 MaxDepth = 1000 MaxOps = 100000\n"
@@ -335,7 +349,7 @@ def record_and_validate(ctx, exe, known):
                 "INIT TInit\nNEXT TNext\nCONSTRAINT Progress\nINVARIANT Report\nPOSTCONDITION Accepted\n"
                 "CHECK_DEADLOCK FALSE\n" % (_q(ALL_S), ", ".join(map(str, ALL_F)), _q(ALL_FORMS), _q(sorted(known))))
     res = spantv.validate(ctx, "SpanIdentityTrace", cfgp, lines, chunk=60 if thorough else 40, parallel=4, tag="c05tv",
-                          timeout_s=900)
+                          timeout_s=900, max_rejects=2)
     ctx.extra["programs_validated"] = res["executions"]
     ctx.extra["program_events_validated"] = res["events"]
     ctx.extra["trace_validation_devused"] = sorted(res["devused"])
@@ -400,6 +414,8 @@ def run(ctx):
     ctx.traces += summ.get("behaviours", 0) + summ2.get("behaviours", 0) + summ3.get("behaviours", 0)
     ctx.extra["replayed_counter_idgen"] = summ
     ctx.extra["replayed_random_idgen"] = summ2
+    if summ2.get("os_threads_finished", 1) == 0:
+        raise Broken("vacuity: the RandomIdGenerator replay never let an OS thread finish and be replaced")
     ctx.extra["replayed_fork"] = summ3
     ctx.extra["behaviours_truncated_at_alternative"] = t1 + t2
     for b in behs:
@@ -442,7 +458,11 @@ def replay(ctx, path):
     if not b:
         raise Broken("replay file has no behaviour; re-run the check with the recorded seed")
     ctx.seed = rep.get("seed", ctx.seed)
-    probs, summ = replay_behs(ctx, exe, [b], rep.get("idgen", "counter"), "replay")
-    ctx.traces += 1
+    idgen = rep.get("idgen", "counter")
+    # with the real RandomIdGenerator freshness is demanded over the whole harness process (all thread
+    # generations): the behaviour is repeated so that finished and re-created OS threads occur again
+    bs = [b] if idgen != "random" else [dict(b, id=b["id"] + k) for k in range(40)]
+    probs, summ = replay_behs(ctx, exe, bs, idgen, "replay")
+    ctx.traces += len(bs)
     ctx.sample({"kind": "replayed behaviour", "steps": b["steps"][:8]})
-    classify(ctx, [b], probs, rep.get("idgen", "counter"))
+    classify(ctx, bs, probs, idgen)
